@@ -17,7 +17,7 @@ def one(path):
     else:
         meta = os.path.join(os.path.dirname(path), "meta.json")
         import json
-        props = [json.load(open(meta))["property"]] if os.path.exists(meta) else [re.match(r"(c\d+)", name).group(1).upper()]
+        props = [json.load(open(meta))["property"]] if os.path.exists(meta) else [re.search(r"(c\d+)", name).group(1).upper()]
     t0 = time.time()
     r = subprocess.run([os.path.join(HERE, "tools", "mutant.py"), path] + props + ["--seeds", seeds], capture_output=True, text=True)
     out = r.stdout
